@@ -482,6 +482,79 @@ def J.matchesFields : List (String × J) → List (String × J) → Bool
      | none => false) && J.matchesFields xs ows
 end
 
+mutual
+/-- forget the distinction between "no value because the producer was disabled / empty" and null:
+what a run-time that writes JSON null for both delivers -/
+def J.erase : J → J
+  | .null => .null
+  | .dnull => .null
+  | .atom s => .atom s
+  | .arr xs => .arr (J.eraseList xs)
+  | .obj kvs => .obj (J.eraseFields kvs)
+def J.eraseList : List J → List J
+  | [] => []
+  | x :: xs => J.erase x :: J.eraseList xs
+def J.eraseFields : List (String × J) → List (String × J)
+  | [] => []
+  | (k, x) :: xs => (k, J.erase x) :: J.eraseFields xs
+end
+
+mutual
+/-- `e ≈ o` ("o renders e"): `o` is `e` with every `dnull` replaced by null, an empty collection
+or a collection of nulls (the freedom the semantics leaves an implementation); everything else,
+including the order of object members, is equal -/
+def J.approx : J → J → Bool
+  | .dnull, o => o.nullish
+  | .null, .null => true
+  | .atom a, .atom b => a == b
+  | .arr xs, .arr ys => J.approxList xs ys
+  | .obj kvs, .obj ows => J.approxFields kvs ows
+  | _, _ => false
+def J.approxList : List J → List J → Bool
+  | [], [] => true
+  | x :: xs, y :: ys => J.approx x y && J.approxList xs ys
+  | _, _ => false
+def J.approxFields : List (String × J) → List (String × J) → Bool
+  | [], [] => true
+  | (k, x) :: xs, (k', y) :: ys => k == k' && J.approx x y && J.approxFields xs ys
+  | _, _ => false
+end
+
+mutual
+/-- no `dnull` inside: a JSON value -/
+def J.clean : J → Bool
+  | .dnull => false
+  | .arr xs => J.cleanList xs
+  | .obj kvs => J.cleanFields kvs
+  | _ => true
+def J.cleanList : List J → Bool
+  | [] => true
+  | x :: xs => J.clean x && J.cleanList xs
+def J.cleanFields : List (String × J) → Bool
+  | [] => true
+  | (_, x) :: xs => J.clean x && J.cleanFields xs
+end
+
+mutual
+/-- every literal of the expression is null or a scalar (what the parser produces; `dnull` is
+not a literal of the language) -/
+def Exp.clean : Exp → Bool
+  | .lit .null => true
+  | .lit (.atom _) => true
+  | .lit _ => false
+  | .arr xs => Exp.cleanList xs
+  | .map kvs => Exp.cleanFields kvs
+  | .struct kvs => Exp.cleanFields kvs
+  | .self _ _ => true
+  | .ref _ _ => true
+def Exp.cleanList : List Exp → Bool
+  | [] => true
+  | e :: es => Exp.clean e && Exp.cleanList es
+def Exp.cleanFields : List (String × Exp) → Bool
+  | [] => true
+  | (_, e) :: es => Exp.clean e && Exp.cleanFields es
+end
+
 /-! ## auxiliary notions used to state the meta-theorems (Props/C01.lean) -/
 
 /-- the oracle induced by a history: the outputs recorded for an instance -/
